@@ -5,9 +5,12 @@ JSON form (mirrors the wire format of coq/theories/Model/MiniPy.v; trailing elem
  rhs   : [0,value] [1,"name"] [2,"f",["a"..]] [3,"source text"]
  target: [0,"n"] [1,["a","b"]] [2,"attr"]
  deco  : [0,["a","b"]] [1,["a"]]
- stmt  : [0,name,decos,async,body,params?] [1,name,bases,body] [2,targets,rhs] [3,target,ann,optrhs] [4,target,rhs]
+ stmt  : [0,name,decos,async,body,params?] [1,name,bases("a" or "m.a"),body,cdecos?] [2,targets,rhs] [3,target,ann,optrhs] [4,target,rhs]
          [5,"text",quote] [6,test,body,orelse,variant] [7,body,handlers,orelse,final] [8,body,variant]
-         [9,tgt,body,orelse] [10,body,orelse] [11,names,"source text"] [12,"source text"]
+         [9,tgt,body,orelse] [10,body,orelse] [11,names,"source text",infos?,refs?] [12,"source text"]
+ import info (what a name is bound to; filled in by the harness from the model's result for the imported module):
+         [0] anything | [1,exc,[[member,tag]..]] a class | [2,[[class,exc,[[member,tag]..]]..]] a module     tag 0 def/class 1 variable 2 ivar
+ refs[i] = None | ["pkg.mod", "Class"] | ["pkg.mod", None]   (what names[i] refers to, for the harness)
 """
 from __future__ import annotations
 from typing import Any, List, Set
@@ -105,7 +108,8 @@ def pp_stmt(s: Any, ind: int, ctx: str) -> List[str]:
         return out + pp_suite(body, ind + 1, 'func')
     if t == 1:
         _, name, bases, body = s[:4]
-        return ['%sclass %s%s:' % (p, name, '(' + ', '.join(bases) + ')' if bases else '')] + pp_suite(body, ind + 1, 'class')
+        out = [p + '@' + '.'.join(d[1]) + ('()' if d[0] == 1 else '') for d in (s[4] if len(s) > 4 and s[4] else [])]
+        return out + ['%sclass %s%s:' % (p, name, '(' + ', '.join(bases) + ')' if bases else '')] + pp_suite(body, ind + 1, 'class')
     if t == 2:
         return [p + ' = '.join(pp_target(x) for x in s[1]) + ' = ' + pp_rhs(s[2])]
     if t == 3:
@@ -204,3 +208,34 @@ def depth(body: List[Any]) -> int:
         for k in {0: (4,), 1: (3,), 6: (2, 3), 7: (1, 2, 3, 4), 8: (1,), 9: (2, 3), 10: (1, 2)}.get(t, ()):
             d = max(d, 1 + depth(s[k]))
     return d
+
+
+def to_wire(body: List[Any]) -> List[Any]:
+    """JSON form -> the nesting Model/MiniPy.v decodes (dotted bases split, import infos attached, hints dropped where needed)"""
+    out = []
+    for s in body:
+        t = s[0]
+        if t == 0:
+            out.append([0, s[1], s[2], s[3], to_wire(s[4])])
+        elif t == 1:
+            out.append([1, s[1], [b.split('.') for b in s[2]], to_wire(s[3]), s[4] if len(s) > 4 and s[4] else []])
+        elif t == 6:
+            out.append([6, s[1], to_wire(s[2]), to_wire(s[3])])
+        elif t == 7:
+            out.append([7, to_wire(s[1]), to_wire(s[2]), to_wire(s[3]), to_wire(s[4])])
+        elif t == 8:
+            out.append([8, to_wire(s[1])])
+        elif t == 9:
+            out.append([9, s[1], to_wire(s[2]), to_wire(s[3])])
+        elif t == 10:
+            out.append([10, to_wire(s[1]), to_wire(s[2])])
+        elif t == 11:
+            infos = s[3] if len(s) > 3 and s[3] else [[0]] * len(s[1])
+            out.append([11, [[n, i] for n, i in zip(s[1], infos)]])
+        elif t == 5:
+            out.append([5, s[1]])
+        elif t == 12:
+            out.append([12])
+        else:
+            out.append(s)
+    return out
